@@ -68,7 +68,7 @@ Definition errkind_code (e : errkind) : N :=
   match e with
   | EAggInconsistent => 0 | ESuspiciousHeight => 1 | ELocalOnly => 2 | EAggLower => 3 | EDifferentId => 4
   | EBadMetadata => 5 | EStorage => 6 | ENotClosed => 7 | ENoPrevSettled => 8 | EPrevNotSettled => 9
-  | EUnknownStatus => 10 | EOther => 11
+  | EUnknownStatus => 10 | EOther => 11 | ERetryFromMismatch => 12
   end.
 Definition errkind_eqb (a b : errkind) : bool := errkind_code a =? errkind_code b.
 Definition outcome_eqb (a b : outcome) : bool :=
@@ -176,21 +176,20 @@ Definition latest_lacks_prev (a : aggview) : bool :=
 Definition top_from_agg (l : list row) : bool :=
   match spec_top l with Some t => r_from_agg t | None => false end.
 
-(* documented boundaries, recorded in the evidence instead of being counted as violations:
-   - a version-0 metadata hash does not carry the first block, so for an InError certificate rebuilt from the
-     Agglayer header only height and previous LER are demanded;
-   - a header without previous LER for an InError certificate rebuilt from it: the node finds no previous LER
-     and builds nothing (safe, not live) *)
+(* "error or correct, never wrong". Whenever the reference says a certificate can be built, the implementation
+   must produce exactly the reference (height, previous LER, first block). Building nothing (an error) is accepted
+   only in the two documented boundary classes, each with its own error, and only for a row rebuilt from the header:
+   - the header carries no previous LER and the flow finds no settled row below (ENoPrevSettled);
+   - the header's metadata is version 0, which does not carry the first block: the retry check of VerifyBuildParams
+     refuses to build (ERetryFromMismatch).
+   Both are safe and not live; they are counted in the evidence. A wrong value is a violation in every class. *)
 Definition next_ok (c : case_recover) : bool :=
   let ref := spec_next (k_cfg c) (k_agg c) (k_ideal c) in
   let rebuilt := top_from_agg (o_after c) in
   match ref, o_next c with
-  | Ok (h, ler, from), Ok (h', ler', from') =>
-      (h =? h') && (ler =? ler') &&
-      ((from =? from') ||
-       (* InError reference (same height as the ideal row), row rebuilt from a version-0 header *)
-       (rebuilt && latest_is_v0 (k_agg c) && match k_ideal c with Some i => r_height i =? h | None => false end))
+  | Ok x, Ok y => triple_eqb x y
   | Ok _, Err ENoPrevSettled => rebuilt && latest_lacks_prev (k_agg c)
+  | Ok _, Err ERetryFromMismatch => rebuilt && latest_is_v0 (k_agg c)
   | Err ENotClosed, Err ENotClosed => true
   | Err ENoPrevSettled, Err _ => true
   | _, _ => false
